@@ -106,12 +106,18 @@ func init() {
 		p := fr.i.path
 		s := p.fresh(goString(args[0]), types.Int)
 		p.assume(mkSymVal(types.Bool, mkCmp("bvult", s.e, mkConst(uint64(n), 64))))
-		for i := 0; i < n-1; i++ {
-			if p.decide(mkEq(s.e, mkConst(uint64(i), 64))) {
-				return i
+		// bisection: log2(n) decisions per path
+		lo, hi := 0, n // value in [lo,hi)
+		for hi-lo > 1 {
+			mid := (lo + hi) / 2
+			if p.decide(mkCmp("bvult", s.e, mkConst(uint64(mid), 64))) {
+				hi = mid
+			} else {
+				lo = mid
 			}
 		}
-		return n - 1
+		p.addPC(mkEq(s.e, mkConst(uint64(lo), 64)))
+		return lo
 	}
 	externals[rt+"Assume"] = func(fr *frame, args []value) value {
 		fr.i.path.assume(args[0])
@@ -166,6 +172,18 @@ func init() {
 	}
 	externals[rt+"MapOrderNondet"] = func(fr *frame, args []value) value {
 		fr.i.mapOrderNondet = args[0].(bool)
+		return nil
+	}
+	externals[rt+"MapRangeCount"] = func(fr *frame, args []value) value { return fr.i.mapRanges }
+	externals[rt+"ReverseMapRange"] = func(fr *frame, args []value) value {
+		// ReverseMapRange(k): the k-th (1-based, counted from now) range over a map with at
+		// least two entries iterates in reverse order; 0 switches it off
+		k := int(asInt64(args[0]))
+		if k <= 0 {
+			fr.i.reverseRange = 0
+		} else {
+			fr.i.reverseRange = fr.i.mapRanges + k
+		}
 		return nil
 	}
 	externals[rt+"Guard"] = func(fr *frame, args []value) value {
